@@ -61,10 +61,31 @@ def exec_case(orc, case):
     return orc.request([dict(entry=entry, builder=builder, newxta=nx, input=mut, dump='inv')])
 
 
+def seed_query_steps():
+    """every seed document once more with its own <formula> texts handed to parseProperty (the XML reader only stores them)"""
+    import html
+    import re
+    out = []
+    for fn, switches in SEEDS:
+        text = open(os.path.join(common.VERIF, 'corpus', 'seeds', fn)).read()
+        qs = [html.unescape(q).replace('\n', ' ') for q in re.findall(r'<formula>([^<]+)</formula>', text)]
+        if qs:
+            out.append((fn, dict(entry='xml-buffer', builder='document', newxta=switches[0], input=text, dump='inv', actions='queries', queries='\n'.join(qs))))
+    return out
+
+
 def enum_worker(chk, wi, nw):
     st = common.Stats()
     orc = oracle.Oracle(os.path.join(chk.workdir, 'w%d' % wi), cpu_limit=20)
     cases = enum_cases()
+    for k, (fn, stp) in enumerate(seed_query_steps()):
+        if k % nw != wi:
+            continue
+        resp = orc.request([stp])
+        st.case('%s|own-queries' % fn, nontrivial=True, classes=['enum:own-queries', 'builder:document', 'entry:xml-buffer'], sample={'seed': fn, 'queries': stp['queries'][:200]})
+        v = verdict(resp)
+        if v:
+            chk.report(st, v[1], '%s with its own queries: %s' % (fn, v[2][:1500]), {'kind': 'request', 'steps': [stp]})
     for i, case in enumerate(cases):
         if i % nw != wi:
             continue
